@@ -6,7 +6,17 @@ use libc::vshim;
 use libc::vshim::atomic::AtomicU16;
 use libc::vshim::cell::UnsafeCell;
 
+/// Fallback build (`--cfg sighook_verif_nostate`, used by `check` when the
+/// instrumented build does not compile, e.g. because `Channel` gained a field):
+/// the constructor from raw words becomes a marker panic; harnesses that start
+/// from `Channel::new()` still run.
+#[cfg(sighook_verif_nostate)]
+pub fn from_raw<T>(_empty: u16, _full: u16, _cells: [Option<T>; SLOTS]) -> Channel<T> {
+    panic!("verification hook unavailable: the private layout of Channel changed")
+}
+
 /// Build a channel directly from queue words and cell contents.
+#[cfg(not(sighook_verif_nostate))]
 pub fn from_raw<T>(empty: u16, full: u16, cells: [Option<T>; SLOTS]) -> Channel<T> {
     let [a, b, c, d, e] = cells;
     Channel {
